@@ -39,6 +39,12 @@ def streams(rng, cfg):
     out.append(("huge-content-length", [head + b"Content-Length: 99999999999\r\n\r\n"] + [b"b" * 50] * 50))
     te = b"Transfer-Encoding: c\r\n\r\n" if lim["line"] < 40 else b"Transfer-Encoding: chunked\r\n\r\n"
     out.append(("endless-chunks", [head + te] + [b"1\r\nz\r\n"] * n))
+    if cfg.maxchunk < 5000:
+        # every chunk as large as the chunk limit allows (larger than the body limit when that is the smaller one)
+        k = cfg.maxchunk
+        out.append(("endless-chunks-at-the-chunk-limit", [head + te] + [b"%x\r\n" % k + b"z" * k + b"\r\n"] * min(n, 1500)))
+        k = min(cfg.maxchunk, cfg.maxcontent + 1)
+        out.append(("endless-chunks-just-above-the-body-limit", [head + te] + [b"%x\r\n" % k + b"z" * k + b"\r\n"] * min(n, 1500)))
     out.append(("endless-chunk-extension", [head + te + b"1;"] + [b"e" * 7] * n))
     out.append(("endless-chunk-ext-blanks", [head + te + b"1;"] + [b" "] * n))
     out.append(("endless-chunk-size-digits", [head + te] + [b"0"] * n))
@@ -68,6 +74,8 @@ def gen(chk):
         cfg = G.rand_cfg(rng, inst)
         if inst == "T":
             cfg.maxcontent = rng.choice([16, 64]); cfg.maxchunk = rng.choice([8, 32])
+            if not cfgs:
+                cfg.maxcontent, cfg.maxchunk = 16, 32      # a chunk limit above the body limit
         else:
             cfg.maxcontent = 300; cfg.maxchunk = 100
         cfgs.append(cfg)
@@ -107,7 +115,7 @@ def run(chk):
                           {"case": c[:2000] + ("..." if len(c) > 2000 else ""), "stream": name, "fed": how, "retained": mr, "bound": B,
                            "config": cfg.req_prefix()}, True, "unbounded:" + name)
         # a stream that never completes a request must be rejected in bounded time
-        if name not in ("body-over-content-length-pipelined", "endless-chunks") and total > reject_bound(cfg):
+        if name not in ("body-over-content-length-pipelined", "endless-chunks", "endless-chunks-at-the-chunk-limit", "endless-chunks-just-above-the-body-limit") and total > reject_bound(cfg):
             if not any(e.startswith("I(") for e in p[1]):
                 chk.violation("stream `%s` fed %d bytes without being rejected" % (name, total), {"stream": name, "config": cfg.req_prefix()}, True, "never-rejected:" + name)
     for c, mo, io in diffs[:30]:
